@@ -60,7 +60,8 @@ Variable quorum_checked : bool.
 Variable gate_exact : bool.
 Variable ubi_bigint : bool.
 Variable remove_atomic : bool.
-Variable actors : list (Z * list Z).
+Variable actors : list (Z * list Z).     (* the gov actors (roles) at the start of every history *)
+Variable order : list Z.                 (* all addresses in store (byte) order: role index iteration *)
 Variable U : list Z.
 Definition ceq (a b : fcoins) : bool := forallb (fun d => a d =? b d) U.
 
@@ -79,19 +80,25 @@ Definition sp_obs_matches (accts : list Z) (s s' : sstate) (r : Z) (o : sobs) : 
                        | None => match zget (fst e) (s_pools s) with Some Q => pool_same (snd e) Q | None => false end
                        end) (s_pools s')
   && forallb (fun e => zhas (fst e) (s_pools s')) (so_pools o)
-  && forallb (fun e => match pget (fst e) (s_claims s') with Some t => t =? snd e | None => false end) (so_claims o)
+  (* changed claim records; a deleted record is reported with LastClaim -1 *)
+  && forallb (fun e => match pget (fst e) (s_claims s') with Some t => t =? snd e | None => snd e =? -1 end) (so_claims o)
   && forallb (fun e => match pget (fst e) (so_claims o) with
                        | Some _ => true
                        | None => match pget (fst e) (s_claims s) with Some t => t =? snd e | None => false end
-                       end) (s_claims s').
+                       end) (s_claims s')
+  && forallb (fun e => match pget (fst e) (s_claims s') with
+                       | Some _ => true
+                       | None => match pget (fst e) (so_claims o) with Some t => t =? -1 | None => false end
+                       end) (s_claims s).
 
-Fixpoint sp_corr (accts : list Z) (s : sstate) (h : list (Z * sp_op * sobs)) : bool :=
+Fixpoint sp_corr (accts : list Z) (acts : list (Z * list Z)) (s : sstate) (h : list (Z * sp_op * sobs)) : bool :=
   match h with
   | [] => true
   | (now, op, o) :: r =>
-      let res := sp_apply dynguard payout_safe quorum_checked actors U now op s in
+      let res := sp_apply dynguard payout_safe quorum_checked acts U now op s in
       let s' := match res with Ok s' => s' | _ => s end in
-      sp_obs_matches accts s s' (res_of res) o && sp_corr accts s' r
+      let acts' := match res with Ok _ => next_actors order acts op | _ => acts end in
+      sp_obs_matches accts s s' (res_of res) o && sp_corr accts acts' s' r
   end.
 
 (* ================================================================ ubi: model vs observation *)
@@ -122,20 +129,23 @@ Definition co_obs_matches (accts : list Z) (s s' : cstate) (r : Z) (o : cobs) : 
   && forallb (fun a => ceq (csub (cs_bank s' a) (cs_bank s a)) (lget a (co_deltas o))) accts
   && forallb (fun e => match zget (fst e) (co_colls o) with Some ob => coll_matches (cs_bank s') (fst e) (snd e) ob | None => false end) (cs_colls s')
   && forallb (fun e => zhas (fst e) (cs_colls s')) (co_colls o).
-Fixpoint co_corr (accts : list Z) (s : cstate) (h : list (Z * co_op * cobs)) : bool :=
+Definition co_next_actors (acts : list (Z * list Z)) (o : co_op) : list (Z * list Z) :=
+  match o with CRotate a a' _ => actors_rotate order a a' acts | _ => acts end.
+Fixpoint co_corr (accts : list Z) (acts : list (Z * list Z)) (s : cstate) (h : list (Z * co_op * cobs)) : bool :=
   match h with
   | [] => true
   | (now, op, o) :: r =>
-      let res := co_apply remove_atomic actors U now op s in
+      let res := co_apply remove_atomic acts U now op s in
       let s' := match res with Ok s' => s' | _ => s end in
-      co_obs_matches accts s s' (res_of res) o && co_corr accts s' r
+      let acts' := match res with Ok _ => co_next_actors acts op | _ => acts end in
+      co_obs_matches accts s s' (res_of res) o && co_corr accts acts' s' r
   end.
 
 Definition case_matches (c : c18_case) : bool :=
   match c with
-  | CSpend bank0 mod0 h => sp_corr (map fst bank0) (mkS [] [] (bank_of bank0 MODULE mod0)) h
+  | CSpend bank0 mod0 h => sp_corr (map fst bank0) actors (mkS [] [] (bank_of bank0 MODULE mod0)) h
   | CUbi hardcap recs0 books0 h => ubi_corr hardcap (mkUS recs0 books0 0) h
-  | CColl bank0 mod0 h => co_corr (map fst bank0) (mkCS [] (bank_of bank0 CMODULE mod0)) h
+  | CColl bank0 mod0 h => co_corr (map fst bank0) actors (mkCS [] (bank_of bank0 CMODULE mod0)) h
   end.
 Fixpoint mismatches_from (n : nat) (cs : list c18_case) : list nat :=
   match cs with [] => [] | c :: r => if case_matches c then mismatches_from (S n) r else n :: mismatches_from (S n) r end.
@@ -162,12 +172,18 @@ Record sspec := mkSS {
   ss_terms : list (Z * terms);     (* ghost: terms set by accepted create / passed update (+ dynamic rates) *)
   ss_book : list (Z * fcoins);     (* ghost: deposits minus payments per pool *)
   ss_mod : fcoins;                 (* module account balance as last observed (bank) *)
-  ss_last : list (pkey * Z) }.     (* ghost: last accepted registration / claim per (pool, account) *)
+  ss_last : list (pkey * Z);       (* ghost: last accepted registration / claim per (pool, account) *)
+  ss_actors : list (Z * list Z) }. (* ghost: who holds which roles (follows accepted address rotations) *)
+
+(* an accepted address rotation renames the person in the ghost record *)
+Definition prot {A} (a a' : Z) (l : list (pkey * A)) : list (pkey * A) :=
+  map (fun e => if snd (fst e) =? a then ((fst (fst e), a'), snd e) else e)
+      (filter (fun e => negb ((snd (fst e) =? a') && match pget (fst (fst e), a) l with Some _ => true | None => false end)) l).
 
 (* every weight the pool terms grant to account a (by account entry or by a role it holds) *)
-Definition granted_weights (T : terms) (a : Z) : list Z :=
+Definition granted_weights (acts : list (Z * list Z)) (T : terms) (a : Z) : list Z :=
   map snd (filter (fun e => fst e =? a) (t_baccts T))
-  ++ map snd (filter (fun e => existsb (Z.eqb (fst e)) (roles_of actors a)) (t_broles T)).
+  ++ map snd (filter (fun e => existsb (Z.eqb (fst e)) (roles_of acts a)) (t_broles T)).
 Definition max_list (l : list Z) : Z := fold_right Z.max 0 l.
 Definition rate_of (T : terms) (d : Z) : Z := zsum (map snd (filter (fun e => fst e =? d) (t_rates T))).
 (* elapsed time since the last claim inside the claim window, clipped to the expiry *)
@@ -175,8 +191,8 @@ Definition entitled_seconds (T : terms) (last now : Z) : Z :=
   let upto := if (t_end T =? 0) then now else Z.min now (t_end T) in
   Z.max 0 (Z.min (t_expiry T) (upto - Z.max (t_start T) last)).
 (* paid <= rate * seconds * weight rounded to the nearest unit (plus one 10^-18 rounding of sdk.Dec) *)
-Definition within_entitlement (T : terms) (a last now : Z) (paid : fcoins) : bool :=
-  let w := max_list (granted_weights T a) in
+Definition within_entitlement (acts : list (Z * list Z)) (T : terms) (a last now : Z) (paid : fcoins) : bool :=
+  let w := max_list (granted_weights acts T a) in
   let secs := entitled_seconds T last now in
   forallb (fun d => 2 * paid d * PREC * PREC <=? 2 * Z.max 0 (rate_of T d * secs * w) + PREC * PREC + PREC) U.
 
@@ -188,9 +204,9 @@ Definition check_payment (S : sspec) (now p a : Z) (paid : fcoins) : list string
       flag (cnonneg paid) "negative_payment"
       ++ match pget (p, a) (ss_last S) with
          | None => ["paid_unregistered"%string]
-         | Some last => flag (within_entitlement T a last now paid) "over_entitlement"
+         | Some last => flag (within_entitlement (ss_actors S) T a last now paid) "over_entitlement"
          end
-      ++ flag (negb (match granted_weights T a with [] => true | _ => false end)) "paid_non_beneficiary"
+      ++ flag (negb (match granted_weights (ss_actors S) T a with [] => true | _ => false end)) "paid_non_beneficiary"
       ++ flag (cle paid (fget p (ss_book S))) "over_book"
   end.
 
@@ -199,8 +215,8 @@ Definition patch_pools (l : list (Z * opool)) (d : list (Z * opool)) : list (Z *
 Definition books_sum (l : list (Z * fcoins)) : fcoins := fun d => zsum (map (fun e => snd e d) l).
 Definition delta_of (o : sobs) (a : Z) : fcoins := lget a (so_deltas o).
 Definition sum_deltas (o : sobs) : fcoins := fun d => zsum (map (fun e => cof (snd e) d) (so_deltas o)).
-Definition allowed_by_terms (T : terms) (a : Z) : bool :=
-  existsb (fun e => fst e =? a) (t_baccts T) || existsb (fun e => existsb (Z.eqb (fst e)) (roles_of actors a)) (t_broles T).
+Definition allowed_by_terms (acts : list (Z * list Z)) (T : terms) (a : Z) : bool :=
+  existsb (fun e => fst e =? a) (t_baccts T) || existsb (fun e => existsb (Z.eqb (fst e)) (roles_of acts a)) (t_broles T).
 (* the stored terms agree with the ghost terms; the stored expiry may only be stricter (the update
    proposal carries no expiry: the checker keeps the one the pool was created with) *)
 Definition terms_agree (stored ghost : terms) : bool :=
@@ -226,10 +242,23 @@ Definition sp_ghost_terms (S : sspec) (post : list (Z * opool)) (op : sp_op) : l
 Definition sp_ghost_book (accts : list Z) (S : sspec) (op : sp_op) (o : sobs) : list (Z * fcoins) :=
   match op with
   | OCreate p _ | OBadQuorum false p _ => if zhas p (ss_book S) then ss_book S else zset p czero (ss_book S)
-  | ODeposit _ p amt => zset p (cadd (fget p (ss_book S)) (cof amt)) (ss_book S)
+  | ODeposit _ p amt | OModuleDeposit p amt => zset p (cadd (fget p (ss_book S)) (cof amt)) (ss_book S)
   | OClaim a p => zset p (csub (fget p (ss_book S)) (delta_of o a)) (ss_book S)
   | ODistribute p | OWithdraw p _ _ => zset p (csub (fget p (ss_book S)) (sum_deltas o)) (ss_book S)
   | _ => ss_book S
+  end.
+
+Definition sp_ghost_last (accts : list Z) (S : sspec) (now : Z) (op : sp_op) (o : sobs) : list (pkey * Z) :=
+  match op with
+  | ORegister a p => pset (p, a) now (ss_last S)
+  | OClaim a p => pset (p, a) now (ss_last S)
+  | ODistribute p =>     (* a passed distribution is a claim by every beneficiary of the pool *)
+      match zget p (ss_terms S) with
+      | Some T => fold_left (fun acc a => if allowed_by_terms (ss_actors S) T a then pset (p, a) now acc else acc) accts (ss_last S)
+      | None => ss_last S
+      end
+  | ORotate a a' _ => prot a a' (ss_last S)
+  | _ => ss_last S
   end.
 
 Definition sp_step_clauses (accts : list Z) (S : sspec) (now : Z) (op : sp_op) (o : sobs) : list string :=
@@ -249,10 +278,14 @@ Definition sp_step_clauses (accts : list Z) (S : sspec) (now : Z) (op : sp_op) (
   (* the stored records are what the ghost record says *)
   ++ flag (forallb (fun e => match zget (fst e) terms' with Some T => terms_agree (op_terms (snd e)) T | None => false end) post
            && forallb (fun e => zhas (fst e) post) terms') "terms_changed_without_create_or_update"
+  (* ... including every claim record the operation wrote or deleted (deleted = -1) *)
+  ++ flag (let last' := sp_ghost_last accts S now op o in
+           forallb (fun e => match pget (fst e) last' with Some t => t =? snd e | None => snd e =? -1 end) (so_claims o))
+          "claim_record_not_as_registered_or_claimed"
   ++ flag (forallb (fun e => ceq (cof (op_bal (snd e))) (fget (fst e) book')) post)
           (match op with
            | OClaim _ _ | ODistribute _ | OWithdraw _ _ _ => "book_not_reduced_by_payment"
-           | ODeposit _ _ _ => "deposit_not_booked"
+           | ODeposit _ _ _ | OModuleDeposit _ _ => "deposit_not_booked"
            | _ => "book_changed_without_funds" end)
   ++ match op with
      | OClaim a p =>
@@ -267,26 +300,25 @@ Definition sp_step_clauses (accts : list Z) (S : sspec) (now : Z) (op : sp_op) (
          | None => ["paid_from_unknown_pool"%string]
          | Some T =>
              flag (forallb (fun a => ceq (delta_of o a) (cscale (count_z a bens) (cof amt))) accts) "withdraw_not_as_proposed"
-             ++ flag (forallb (fun a => allowed_by_terms T a) bens) "paid_non_beneficiary"
+             ++ flag (forallb (fun a => allowed_by_terms (ss_actors S) T a) bens) "paid_non_beneficiary"
              ++ flag (cle (cscale (Z.of_nat (List.length bens)) (cof amt)) (fget p (ss_book S))) "over_book"
          end
      | ODeposit a p amt =>
          flag (ceq (delta_of o a) (cscale (-1) (cof amt)) && ceq mod' (cadd (ss_mod S) (cof amt))) "deposit_not_booked"
      | OBankSend a amt => []
+     | OModuleDeposit p amt =>
+         flag (forallb (fun a => ceq (delta_of o a) czero) accts && ceq mod' (cadd (ss_mod S) (cof amt))) "deposit_not_booked"
+     | ORotate a a' _ =>    (* the person's funds move to its new address, nothing else moves *)
+         flag (forallb (fun b => (b =? a) || (b =? a') || ceq (delta_of o b) czero) accts
+               && ceq (cadd (delta_of o a) (delta_of o a')) czero && ceq out czero) "rotation_moved_funds_elsewhere"
      | _ => flag (forallb (fun a => ceq (delta_of o a) czero) accts && ceq out czero) "funds_moved_by_non_payment_op"
      end.
 
 Definition sp_next (accts : list Z) (S : sspec) (now : Z) (op : sp_op) (o : sobs) : sspec :=
   let post := patch_pools (ss_pools S) (so_pools o) in
-  if negb (so_res o =? 0) then mkSS post (ss_terms S) (ss_book S) (cof (so_mod o)) (ss_last S) else
-  let last' :=
-    match op with
-    | ORegister a p => pset (p, a) now (ss_last S)
-    | OClaim a p => pset (p, a) now (ss_last S)
-    | ODistribute p => fold_left (fun acc a => if ceq (delta_of o a) czero then acc else pset (p, a) now acc) accts (ss_last S)
-    | _ => ss_last S
-    end in
-  mkSS post (sp_ghost_terms S post op) (sp_ghost_book accts S op o) (cof (so_mod o)) last'.
+  if negb (so_res o =? 0) then mkSS post (ss_terms S) (ss_book S) (cof (so_mod o)) (ss_last S) (ss_actors S) else
+  mkSS post (sp_ghost_terms S post op) (sp_ghost_book accts S op o) (cof (so_mod o)) (sp_ghost_last accts S now op o)
+       (next_actors order (ss_actors S) op).
 
 Fixpoint sp_clauses (accts : list Z) (S : sspec) (h : list (Z * sp_op * sobs)) : list string :=
   match h with
@@ -379,6 +411,7 @@ Definition co_ghost (accts : list Z) (S : cspec) (now : Z) (op : co_op) (o : cob
             (if zhas c (co_colls o) then cp_book S else zset c czero (cp_book S)) (cp_mod S) (cp_colls S)
   | CSendDonation c _ amt => mkCSp (cp_putin S) (cp_lock S) (zset c (csub (fget c (cp_book S)) (cof amt)) (cp_book S)) (cp_mod S) (cp_colls S)
   | CSeed c amt => mkCSp (cp_putin S) (cp_lock S) (zset c (cadd (fget c (cp_book S)) (cof amt)) (cp_book S)) (cp_mod S) (cp_colls S)
+  | CRotate a a' _ => mkCSp (prot a a' (cp_putin S)) (prot a a' (cp_lock S)) (cp_book S) (cp_mod S) (cp_colls S)
   end.
 
 Definition co_step_clauses (accts : list Z) (S : cspec) (now : Z) (op : co_op) (o : cobs) : list string :=
@@ -424,6 +457,9 @@ Definition co_step_clauses (accts : list Z) (S : cspec) (now : Z) (op : co_op) (
          flag (forallb (fun b => ceq (cdelta o b) (if b =? a then cscale (-1) (cof bonds) else czero)) accts) "contribution_not_debited_exactly"
      | CDonate _ _ _ _ _ => flag (forallb (fun a => ceq (cdelta o a) czero) accts) "funds_moved_by_non_payment_op"
      | CSeed _ _ => []
+     | CRotate a a' _ =>
+         flag (forallb (fun b => (b =? a) || (b =? a') || ceq (cdelta o b) czero) accts
+               && ceq (cadd (cdelta o a) (cdelta o a')) czero && ceq out czero) "rotation_moved_funds_elsewhere"
      end.
 Definition co_next (accts : list Z) (S : cspec) (now : Z) (op : co_op) (o : cobs) : cspec :=
   let G := if co_res o =? 0 then co_ghost accts S now op o else S in
@@ -439,7 +475,7 @@ Fixpoint dedup_str (l : list string) : list string :=
 Definition case_clauses (c : c18_case) : list string :=
   dedup_str
   match c with
-  | CSpend bank0 mod0 h => sp_clauses (map fst bank0) (mkSS [] [] [] (cof mod0) []) h
+  | CSpend bank0 mod0 h => sp_clauses (map fst bank0) (mkSS [] [] [] (cof mod0) [] actors) h
   | CUbi hardcap recs0 books0 h => ubi_clauses (mkUSp recs0 recs0 books0 0) h
   | CColl bank0 mod0 h => co_clauses (map fst bank0) (mkCSp [] [] [] (cof mod0) []) h
   end.
